@@ -235,4 +235,16 @@ theorem trans_C17_SetReservedCapacity_v2 (r : T_v2_sharedResource) (v : Nat) (hf
 theorem trans_C06_ProvisionedResource (r : T_v1_ProvisionedResource) :
     v1_pr_Capacity r = r.maxCapacity ∧ v1_pr_MaxCapacity r = r.maxCapacity := ⟨rfl, rfl⟩
 
+/-! ### non-vacuity: the translated functions on concrete values (also a readable trace of what they compute) -/
+
+example : v2_incTarget ⟨7⟩ 5 = ⟨12⟩ ∧ v2_incTarget ⟨7⟩ (-5) = ⟨2⟩ ∧ v2_incTarget ⟨7⟩ (-9) = ⟨0⟩ ∧ v2_incTarget ⟨7⟩ 0 = ⟨7⟩ := by decide
+example : v1_incTarget ⟨4294967295⟩ 1 = ⟨0⟩ := by decide     -- the wrap-around the `total < 2^32` guard excludes
+example : v1_trySetTargetToZero ⟨3⟩ = (⟨0⟩, true) ∧ v2_confirmTargetIsZero ⟨0⟩ = (⟨0⟩, true) := by decide
+example : v2_sr_Capacity (v2_sr_calc ⟨10, 25, 7, 0, 0, [true, false, true]⟩) = 27 := by decide
+example : v2_sr_MaxCapacity ⟨2, 5000, 7, 0, 0, []⟩ = 1007 := by decide
+example : (v2_sr_GiveMe ⟨10, 100, 7, 0, 0, []⟩ 28).target = 3 := by decide
+example : v2_sr_partitionCount ⟨10, 5001, 0, 0, 0, []⟩ = 500 := by decide
+example : v1_sr_partitionCount ⟨1000, 500001, 0, 0, 0, []⟩ = (501, "PartitionsOutOfRangeError") := by decide
+example : (v2_sr_clearPartitionId ⟨1, 2, 0, 0, 0, [true, true]⟩ 2).partitions = [true, true] := by decide
+
 end GoBatcher.ExpectTrans
